@@ -1,22 +1,126 @@
 package main
 
-// runSelfTest is the thorough-tier sensitivity self-test (overlay mutants); filled in per property.
-func runSelfTest(r *Run, spec *propSpec) {
-	for _, m := range mutantsFor(spec.ID) {
-		applyMutant(r, spec, m)
-	}
-}
+import (
+	"fmt"
+	"os"
+	"path/filepath"
+	"runtime"
+	"runtime/debug"
+	"strings"
+)
+
+// Thorough-tier sensitivity self-test: each mutant is a source rewrite applied through
+// packages.Config.Overlay (in memory; nothing is written to disk, nothing is executed). The
+// affected program is re-loaded and re-analysed; the rule must report the mutated construct.
 
 type mutant struct {
-	Name    string
-	File    string // repo-relative
-	Old     string // unique substring to replace
-	New     string
-	Expect  string // substring that must occur in some violation (rule id or instance)
+	Name   string
+	File   string // repo-relative
+	Old    string // substring (must occur exactly once)
+	New    string
+	Expect string // substring that must occur in a violation line (rule id / instance / detail)
 }
-
-func mutantsFor(id string) []mutant { return mutantCatalogue[id] }
 
 var mutantCatalogue = map[string][]mutant{}
 
-func applyMutant(r *Run, spec *propSpec, m mutant) {}
+func addMutants(prop string, ms ...mutant) { mutantCatalogue[prop] = append(mutantCatalogue[prop], ms...) }
+
+func runSelfTest(r *Run, spec *propSpec) {
+	ms := mutantCatalogue[spec.ID]
+	if len(ms) == 0 {
+		return
+	}
+	r.Rule(spec.ID+".SELF", "checker sensitivity: every catalogued source rewrite (overlay, in memory) that breaks a clause must be reported by the rule naming the mutated construct; a surviving mutant fails the thorough check")
+	st := &MutantStats{}
+	r.Mutants = st
+	for _, m := range ms {
+		viol, err := analyseMutant(spec, m)
+		if err != nil {
+			st.Skipped++
+			st.Names = append(st.Names, m.Name+": skipped ("+firstLine(err.Error())+")")
+			continue
+		}
+		st.Applied++
+		hit := ""
+		for _, v := range viol {
+			if strings.Contains(v, m.Expect) {
+				hit = v
+				break
+			}
+		}
+		if hit != "" {
+			st.Killed++
+			st.Names = append(st.Names, m.Name+": reported")
+			r.Pass(spec.ID+".SELF", m.Name, m.File, "mutant reported: "+hit)
+		} else {
+			st.Names = append(st.Names, m.Name+": SURVIVED")
+			r.FailKind("checker-insensitive", spec.ID+".SELF", m.Name, fmt.Sprintf("mutant of %s was not reported (expected a violation mentioning %q; got %d other violations)", m.File, m.Expect, len(viol)))
+		}
+	}
+}
+
+func firstLine(s string) string {
+	if i := strings.IndexByte(s, '\n'); i >= 0 {
+		return s[:i]
+	}
+	return s
+}
+
+// analyseMutant returns the violation lines (rule | key | detail) of the property's rules on the mutated tree.
+func analyseMutant(spec *propSpec, m mutant) ([]string, error) {
+	path := filepath.Join(repoRoot(), m.File)
+	src, err := os.ReadFile(path)
+	if err != nil {
+		return nil, err
+	}
+	if c := strings.Count(string(src), m.Old); c != 1 {
+		return nil, fmt.Errorf("mutation site occurs %d times in %s (tree differs from the pinned one)", c, m.File)
+	}
+	mutated := strings.Replace(string(src), m.Old, m.New, 1)
+	prog, err := LoadProgram(map[string][]byte{path: []byte(mutated)}, false)
+	if err != nil {
+		return nil, fmt.Errorf("mutant does not load: %w", err)
+	}
+	sub := NewRun(spec.ID, "mutant", prog)
+	func() {
+		defer func() {
+			if e := recover(); e != nil {
+				sub.FailKind("engine-panic", spec.ID+".ENGINE", "panic", fmt.Sprint(e))
+			}
+		}()
+		spec.Check(sub)
+	}()
+	var out []string
+	for _, o := range sub.Obls {
+		if !o.OK && !o.Known {
+			out = append(out, fmt.Sprintf("%s | %s | %s | %s", o.Rule, o.Key, o.Pos, o.Detail))
+		}
+	}
+	prog = nil
+	sub = nil
+	runtime.GC()
+	debug.FreeOSMemory()
+	return out, nil
+}
+
+// runMutateCLI: bcv mutate <prop> <file> <old> <new> – development aid and replay of self-test entries.
+func runMutateCLI(args []string) int {
+	if len(args) < 4 {
+		usage()
+	}
+	spec := props[args[0]]
+	if spec == nil {
+		fmt.Fprintln(os.Stderr, "unknown property")
+		return 2
+	}
+	viol, err := analyseMutant(spec, mutant{Name: "cli", File: args[1], Old: args[2], New: args[3]})
+	if err != nil {
+		fmt.Fprintln(os.Stderr, err)
+		return 2
+	}
+	for _, v := range viol {
+		fmt.Println(v)
+	}
+	fmt.Printf("%d violations\n", len(viol))
+	return 0
+}
